@@ -5,17 +5,24 @@ from .common import bump
 ID = "C13"
 AREA = "c13"
 LEAN_PROPS = "Litep2pVerif.Props.C13"
-THEOREMS = ["at_most_one_terminal", "request_located", "exactly_one_at_quiescence_partial", "response_matches_partial",
-            "responder_sees_once_partial", "inbound_bound", "cancel_effect"]
+THEOREMS = ["at_most_one_terminal", "request_located", "active_owned", "exactly_one_at_quiescence", "response_matches",
+            "responder_sees_once", "inbound_delivered", "inbound_bound", "cancel_effect"]
 MANIFEST = {
     "text": "Lean 4 theorems about an operational model of RequestResponseProtocol (same state components and handler "
             "order as request_response/mod.rs; every interleaving of user commands, transport events and completions of "
             "the per-request futures, with arbitrary answers of the transport service): at most one terminal event per "
-            "request id and a ledger invariant locating every issued request in exactly one place (full strength, by "
-            "induction over all histories, on the code with the per-peer dial queue fix), inbound bound, the exact window "
-            "in which a cancel takes effect; partial: exactly one terminal event at quiescence (under the not yet proved "
-            "owner invariant), responder sees a request on at most one substream at a time, one-step response matching. "
-            "The partial ones are checked in full by the oracle on every run. Tied to the code "
+            "request id and a ledger invariant locating every issued request in exactly one place (on the code with the "
+            "per-peer dial queue fix); the owner invariant (every id in an active set is waited for by a pending "
+            "substream or a request future of that very peer), hence exactly one terminal event for every issued request "
+            "in every reachable quiescent state unless its cancel channel fired (then at most one); at most one substream "
+            "is ever opened per request id, the request future is started at most once and only on that substream, "
+            "substream ids are never shared; every inbound id is handed to the user at most once, exactly when its read "
+            "succeeded while registered; every ResponseReceived in the log carries a payload the responder wrote on the "
+            "one substream opened for that request id (ghost maps rid -> substream -> wire content); every started request "
+            "future writes exactly one payload, the main one or the fallback one iff the substream was negotiated with the "
+            "request's own fallback protocol; inbound bound; the "
+            "exact window in which a cancel takes effect. All full strength, by induction over all histories; the "
+            "oracle checks the same statements on the implementation on every run. Tied to the code "
             "by a seeded differential run of the real protocol + handle (injected transport events, in-memory yamux "
             "substreams, paused clock) against the executable model, plus a per-request ledger oracle.",
     "note": "Trusted: Lean kernel; axioms propext/Classical.choice/Quot.sound; the hand-written model and its tie (sampled "
@@ -26,7 +33,9 @@ MANIFEST = {
 }
 RULE = ("seeded histories over 4 peers (3 dialable): bursts of 1-4 requests per peer with dial-on-demand or reject, "
         "connection established/closed (up to two connections per peer), dial failures, dead connections, substream "
-        "open / open failure per request, responder answers / rejects / closes at a byte offset / stalls, cancels at "
+        "open / open failure per request (optionally negotiated with a fallback protocol that is or is not the request's, "
+        "optionally with a far end nobody reads so that a 300000-byte request blocks in the first-stage send until its "
+        "timeout), requests with a fallback payload, responder answers / rejects / closes at a byte offset / stalls, cancels at "
         "random points, logical-time advances across the request timeout, inbound requests (complete or held, beyond the "
         "inbound limit) answered / refused / dropped, payloads 0..max+1; most cases end with a drain phase that answers "
         "every dial and substream open and lets every future time out; a case is non-trivial if it has a delivered "
@@ -44,7 +53,8 @@ ASSUMPTIONS = ["request and substream ids come from fetch_add counters and are n
                "transport events respect the C08 grammar: substream results only for substreams the protocol still waits "
                "for, at most two connections per peer (the adapter refuses anything else)",
                "keep-alive downgrades are outside the scope (C09): the adapter uses an effectively infinite keep-alive",
-               "fallback protocol names are not exercised",
+               "a request future whose far end is never read is stalled in its first stage (send) exactly when the framed "
+               "request exceeds the 256 KiB yamux window (the generator stays far from that boundary: <= 70001 or 300000 bytes)",
                "a case performs fewer than 5000 operations (settling costs 1-3 ms of the paused clock per operation, "
                "one logical time unit is 10 s)"]
 KEEP_PREFIX = 1
@@ -79,6 +89,9 @@ def varint_len(n):
 
 def pick_len(rng, mx):
     r = rng.random()
+    if mx >= 300000:
+        # big-window cases: the interesting size is the one that exceeds the yamux window
+        return rng.choice([0, rng.randrange(0, 41), 70000, 300000, 300000, mx + 1])
     if r < 0.15:
         return 0
     if r < 0.3:
@@ -94,7 +107,7 @@ def gen_case(rng, n_ops):
     """Structure-aware: the generator keeps a rough guess of where every request is (waiting for a
     dial, for its substream, for its response, done) and mostly picks operations that apply; a
     fifth of the operations are picked blindly."""
-    mx = rng.choice([8, 16, 64, 64, 300, 300, 70000])
+    mx = rng.choice([8, 16, 64, 64, 300, 300, 70000, 8, 16, 64, 64, 300, 300, 70000, 400000])
     timeout = rng.choice([1, 2, 2, 3])
     inmax = rng.choice(["none", "none", 0, 1, 2, 2, 3])
     ops = [f"cfg max={mx} timeout={timeout} inmax={inmax}"]
@@ -123,7 +136,11 @@ def gen_case(rng, n_ops):
     def send(p, mode, burst):
         for _ in range(burst):
             k = len(sends)
-            ops.append(f"send {p} {pick_len(rng, mx)} {k % 256} {mode}")
+            if rng.random() < 0.15:
+                ops.append(f"sendfb {p} {pick_len(rng, mx)} {k % 256} {mode} {rng.choice([1, 2])} "
+                           f"{pick_len(rng, mx)} {(k + 77) % 256}")
+            else:
+                ops.append(f"send {p} {pick_len(rng, mx)} {k % 256} {mode}")
             sends.append(p)
             if conns.get(p):
                 phase[k] = "opening"
@@ -171,7 +188,7 @@ def gen_case(rng, n_ops):
     def inbound(p, burst):
         for _ in range(burst):
             hold = rng.random() < 0.5
-            ops.append(f"inbound {p} {pick_len(rng, mx)} {(200 + len(inb)) % 256}{' hold' if hold else ''}")
+            ops.append(f"inbound {p} {pick_len(rng, min(mx, 70000))} {(200 + len(inb)) % 256}{' hold' if hold else ''}")
             inb.append("held" if hold else "asked")
 
     if rng.random() < 0.5:
@@ -205,7 +222,12 @@ def gen_case(rng, n_ops):
             k = any_rid() if blind else some("opening")
             if k is None:
                 continue
-            ops.append(f"ev subopen r{k}")
+            extra = ""
+            if rng.random() < 0.25:
+                extra += f" fb={rng.choice([1, 2, 3])}"
+            if rng.random() < (0.4 if mx >= 300000 else 0.08):
+                extra += " noread"
+            ops.append(f"ev subopen r{k}{extra}")
             if phase.get(k) == "opening":
                 phase[k] = "open"
         elif r < 0.59:
@@ -280,7 +302,12 @@ def corpus():
     return [["cfg max=64 timeout=2 inmax=none", "send 1 3 0 dial", "send 1 4 1 dial", "state", "ev dialfail 1", "state"],
             ["cfg max=64 timeout=2 inmax=none", "send 1 3 0 dial", "send 1 4 1 dial", "send 1 5 2 dial",
              "ev established 1 0", "ev subopen r0", "ev subopen r1", "ev subopen r2", "respond r1 7 101",
-             "respond r0 6 100", "respond r2 8 102", "state"]]
+             "respond r0 6 100", "respond r2 8 102", "state"],
+            # fallback negotiated (own / foreign fallback protocol), first-stage send stalled past a cancel
+            ["cfg max=400000 timeout=2 inmax=none", "ev established 1 0", "sendfb 1 3 0 reject 7 5 1", "ev subopen r0 fb=7",
+             "respond r0 4 9", "sendfb 1 3 0 reject 7 5 1", "ev subopen r1 fb=8", "send 1 300000 3 reject",
+             "ev subopen r2 noread", "cancel r2", "advance 1", "state", "advance 1", "state", "send 1 10 3 reject",
+             "ev subopen r3 noread", "cancel r3", "state"]]
 
 
 def mutate_case(rng, case, n):
@@ -335,6 +362,8 @@ def oracle(case, out):
     outstanding = 0
     nsend = 0
     ninb = 0
+    now = 0            # logical time
+    opened_at = {}     # "rK" -> logical time its substream was handed to the protocol
     for i, op in enumerate(case):
         if i >= len(out):
             break
@@ -368,22 +397,33 @@ def oracle(case, out):
                           f"substream open or request future is outstanding", i, request=k)
             continue
         res, calls, events = split_obs(o)
-        if t[0] == "send" and len(t) == 5:
+        if (t[0] == "send" and len(t) == 5) or (t[0] == "sendfb" and len(t) == 8):
             k = f"r{nsend}"
             nsend += 1
             if res == k:
-                reqs[k] = {"peer": int(t[1]), "len": int(t[2]), "fill": int(t[3]), "mode": t[4], "step": i}
+                reqs[k] = {"peer": int(t[1]), "len": int(t[2]), "fill": int(t[3]), "mode": t[4], "step": i,
+                           "fb": (int(t[5]), int(t[6]), int(t[7])) if t[0] == "sendfb" else None}
         elif t[0] == "cancel" and res == "ok":
             cancelled.add(t[1])
         elif t[0] == "ev" and t[1] == "subopen" and res.startswith("opened:"):
             k = t[2]
             opened[k] = opened.get(k, 0) + 1
+            opened_at.setdefault(k, now)
             if opened[k] > 1:
                 v("responder-saw-twice", f"a second substream was opened for request {k}", i, request=k)
             view = res[len("opened:"):]
             r = reqs.get(k)
-            if r is not None:
-                want = show(r["len"], r["fill"]) if r["len"] <= cfg["max"] else "nothing"
+            if r is not None and "noread" in t[3:]:
+                if view != "unread":
+                    v("request-mismatch", f"the far end of {k} is never read but the adapter reports {view!r}", i, request=k)
+            elif r is not None:
+                # the request future writes the fallback payload iff the substream was negotiated with the
+                # request's own fallback protocol
+                neg = next((int(a[3:]) for a in t[3:] if a.startswith("fb=") and a[3:].isdigit()), None)
+                ln, fl = r["len"], r["fill"]
+                if r["fb"] is not None and neg == r["fb"][0]:
+                    ln, fl = r["fb"][1], r["fb"][2]
+                want = show(ln, fl) if ln <= cfg["max"] else "nothing"
                 if view != want:
                     v("request-mismatch", f"the responder of {k} received {view!r}, the request was {want!r}", i, request=k)
         elif t[0] == "respond" and res == "ok":
@@ -438,6 +478,14 @@ def oracle(case, out):
                       f"{show(inb[k]['len'], inb[k]['fill'])}", i)
                 if k not in inb:
                     v("inbound-unknown", f"RequestReceived {e!r} for a substream the remote never opened", i)
+        if t[0] == "advance" and len(t) == 2 and res == "ok" and t[1].isdigit():
+            # a silent peer: the request future gives up after at most one timeout for the send and one
+            # for the response, whatever the far end does
+            now += int(t[1])
+            for k, at in opened_at.items():
+                if k in reqs and k not in cancelled and not terminals.get(k) and now - at >= 2 * cfg["timeout"]:
+                    v("no-timeout", f"request {k} got its substream at time {at}, it is now {now} (timeout {cfg['timeout']}) "
+                      f"and it has neither a response nor a failure", i, request=k)
         if cfg["inmax"] is not None and outstanding > cfg["inmax"]:
             v("inbound-bound", f"{outstanding} inbound requests wait for the user's answer, limit {cfg['inmax']}", i)
     return bad
@@ -456,8 +504,11 @@ def stats(case, out, acc):
         for e in events:
             f = e.split(":")
             bump(acc, "event:" + f[0] + (":" + ":".join(f[2:]) if f[0] == "failed" else ""))
-        if t and t[0] == "send" and len(t) == 5:
-            bump(acc, "send:" + t[4])
+        if t and t[0] in ("send", "sendfb") and len(t) in (5, 8):
+            bump(acc, t[0] + ":" + t[4])
+        if t and t[:2] == ["ev", "subopen"] and res.startswith("opened:"):
+            bump(acc, "subopen:" + ("noread" if "noread" in t[3:] else "read") +
+                 (":fb" if any(a.startswith("fb=") for a in t[3:]) else ""))
         if t and t[0] == "inbound":
             bump(acc, "inbound:" + ("rejected" if res.endswith(".eof") and "remote=nothing" in res else "other"))
     bump(acc, "case-len:%d" % (10 * (len(case) // 10)))
